@@ -6,6 +6,7 @@ GHOST_DEFS
 #include "contracts/compint.h"
 #include "contracts/hash.h"
 #include "contracts/hashfn.h"
+#include "contracts/comp.h"
 #include "contracts/header.h"
 #include "extracted_zalloc.c"    /* zmalloc, zrealloc: verbatim from src/lib/zck.c   */
 #include "extracted_hash.c"      /* hash_reset: verbatim from src/lib/hash/hash.c    */
@@ -93,6 +94,115 @@ void h_read_header_from_file(void) {
     V_COVER(r && in.type == 3 && g_hu_k == 3);
     V_COVER(!r && in.err0 == 0 && in.mode == ZCK_MODE_READ);
     V_COVER(r && in.watch_on && g_watch_seen);
+}
+
+
+/* --------------------------------------------- read_preface / read_index / read_sig ------- */
+/* a context as read_lead + read_header_from_file leave it: exact-size buffer lead ‖ header  */
+#define PRE_N 192
+#ifndef VERIF_HDR_MAX
+#define VERIF_HDR_MAX (((size_t)1 << 33))
+#endif
+typedef struct {
+    int fd, mode, err0, type; size_t hdr_digest_loc, header_length;
+    unsigned char pre[PRE_N];          /* first PRE_N bytes of the header buffer (lead ‖ header), tied at constant indices */
+    size_t preface_size, index_size;   /* state left by earlier stages (read_index / read_sig units) */
+    size_t k1; int comp_started0; int hso0, hoe0, hus0;
+} IN_hp;
+V_INPUT(IN_hp)
+
+static zckCtx *mk_loaded_ctx(IN_hp *in) {
+    V_ASSUME(in->err0 >= 0 && in->err0 <= 2 && SPEC_HASH_VALID(in->type));
+    V_ASSUME(in->hdr_digest_loc >= 7 && in->hdr_digest_loc <= LEAD_MIN);
+    V_ASSUME(in->header_length <= VERIF_HDR_MAX);
+    zckCtx *zck = calloc(1, sizeof(*zck));
+    V_ASSUME(zck != NULL);
+    zck->fd = in->fd; zck->mode = in->mode; zck->error_state = in->err0;
+    zck->hash_type.type = in->type; zck->hash_type.digest_size = SPEC_DIGEST_SIZE(in->type);
+    zck->hdr_digest_loc = in->hdr_digest_loc;
+    zck->lead_size = in->hdr_digest_loc + (size_t)SPEC_DIGEST_SIZE(in->type);
+    zck->header_length = in->header_length;
+    zck->header_size = zck->lead_size + zck->header_length;
+    zck->header = malloc(zck->header_size);
+    V_ASSUME(zck->header != NULL);
+    V_TIE192(zck->header, zck->header_size, (char *)in->pre, 0);
+    zck->lead_string = zck->header;
+    zck->header_digest = malloc(SPEC_DIGEST_SIZE(in->type));
+    V_ASSUME(zck->header_digest != NULL);
+    zck->comp.started = in->comp_started0;
+    zck->has_streams = in->hso0; zck->has_optional_elems = in->hoe0; zck->has_uncompressed_source = in->hus0;
+    g_k1 = in->k1;
+    return zck;
+}
+
+#ifdef VERIF_NATIVE
+/* zchunk_format.txt, preface: returns the offset just past the index-size field, or (size_t)-1 if
+ * the preface is malformed (a field or an optional element does not fit inside the header) */
+static size_t spec_preface_end(const char *p, size_t hl, size_t ds) {
+    size_t o = ds, n; v_u128 v;
+    if(ds > hl) return (size_t)-1;
+    n = spec_ci_len(p + o, hl - o); if(n < 1) return (size_t)-1;
+    v_u128 flags = spec_ci_val(p + o, n); o += n;
+    n = spec_ci_len(p + o, hl - o); if(n < 1) return (size_t)-1;
+    o += n;
+    if(flags & 2) {
+        n = spec_ci_len(p + o, hl - o); if(n < 1) return (size_t)-1;
+        v_u128 cnt = spec_ci_val(p + o, n); o += n;
+        for(v_u128 i = 0; i < cnt; i++) {
+            n = spec_ci_len(p + o, hl - o); if(n < 1) return (size_t)-1;
+            o += n;
+            n = spec_ci_len(p + o, hl - o); if(n < 1) return (size_t)-1;
+            v = spec_ci_val(p + o, n); o += n;
+            if(v > (v_u128)(hl - o)) return (size_t)-1;       /* element data must lie inside the header */
+            o += (size_t)v;
+        }
+    }
+    n = spec_ci_len(p + o, hl - o); if(n < 1) return (size_t)-1;
+    return o + n;
+}
+#endif
+
+void h_read_preface(void) {
+    IN_hp in = nondet_IN_hp();
+    zckCtx *zck = mk_loaded_ctx(&in);
+    bool r = read_preface(zck);
+    V_ASSERT(!r || post_read_preface(zck), "C13.read_preface.flags_comp_type_index_size_preface_size_are_the_stored_ones");
+#ifdef VERIF_NATIVE
+    /* native replay only: the specification-derived parser (with its loop over optional elements)
+     * must accept every preface that read_preface accepts, with the same cursor */
+    V_ASSERT(!r || spec_preface_end(zck->header + zck->lead_size, zck->header_length, (size_t)zck->hash_type.digest_size) == zck->preface_size,
+             "C13,C03.read_preface.accepted_preface_is_wellformed_per_format_document");
+#endif
+    V_COVER(r && zck->has_optional_elems == 0 && zck->has_uncompressed_source != 0 && zck->index_size > 1000);
+    V_COVER(r && zck->has_optional_elems != 0 && zck->preface_size > 200);
+    V_COVER(r && zck->comp.type == ZCK_COMP_ZSTD && in.type == 2);
+    V_COVER(!r && in.err0 == 0 && in.mode == ZCK_MODE_READ);
+}
+
+void h_read_index(void) {
+    IN_hp in = nondet_IN_hp();
+    zckCtx *zck = mk_loaded_ctx(&in);
+    V_ASSUME(in.preface_size <= in.header_length && in.index_size <= (size_t)INT_MAX);
+    zck->preface_string = zck->header + zck->lead_size;
+    zck->preface_size = in.preface_size; zck->index_size = in.index_size;
+    bool r = read_index(zck);
+    V_COVER(r && zck->header_size > ((size_t)1 << 32));   /* headers beyond 2^31: max_length must not be narrowed */
+    V_COVER(r && zck->index_size == 3);
+    V_COVER(!r && in.err0 == 0 && in.mode == ZCK_MODE_READ);
+}
+
+void h_read_sig(void) {
+    IN_hp in = nondet_IN_hp();
+    zckCtx *zck = mk_loaded_ctx(&in);
+    V_ASSUME(in.preface_size <= in.header_length && in.index_size <= (size_t)INT_MAX);
+    V_ASSUME(in.preface_size + in.index_size <= in.header_length);
+    zck->preface_string = zck->header + zck->lead_size;
+    zck->preface_size = in.preface_size; zck->index_size = in.index_size;
+    zck->index_string = zck->header + (zck->lead_size + zck->preface_size);
+    bool r = read_sig(zck);
+    V_COVER(r && zck->sig_size == 1);
+    V_COVER(r && zck->sig_size == 3);                     /* non-minimal encoding of 0 */
+    V_COVER(!r && in.err0 == 0 && in.mode == ZCK_MODE_READ);
 }
 
 #ifdef VERIF_NATIVE
